@@ -7,7 +7,9 @@ MANIFEST = dict(
          "memory image, so a restart between any two requests is invisible (C11_channel_state_is_durable, C11_restart_is_invisible; "
          "invariant mem = disk by induction, aborts modelled as crash + restart); at node level what a restart reads back (slots with "
          "forget flags, high-water mark, allowlist, approved invoices) is what the running signer has (C11_node_state_is_durable, "
-         "each request modelled as its sequence of writes in code order); velocity controls from C12.  On every run, after EVERY "
+         "each request modelled as its sequence of writes in code order); velocity controls from C12; over joint histories of the whole "
+         "node (Props/Joint.v, J_C11_restart_is_invisible) every channel's memory image is its persisted image and a restart of the "
+         "signer leaves every channel as it was.  On every run, after EVERY "
          "request (accepted or refused) of three domains a second signer is restored from a copy of nothing but the store and its "
          "fingerprint must equal the running signer's; a third of the node-level histories run on the transactional store "
          "(enter / prepare / cloud replica / commit, also with several requests in one transaction), with a signer restored "
@@ -25,3 +27,5 @@ def run(res):
                    ["C11_channel_state_is_durable", "C11_restart_is_invisible", "C11_node_state_is_durable",
                     "C11_velocity_is_durable", "C11_nonvacuous"],
                    "C11", "a second signer restored from the store alone has the same fingerprint as the running one")
+    # the same over joint histories of the whole node (Model/Joint.v)
+    lib.extra_props_stage(res, "Joint.v", ["J_C11_restart_is_invisible"])
